@@ -120,7 +120,7 @@ impl ModInfo {
 
 pub fn walk_expr<'a>(e: &'a Expr, f: &mut dyn FnMut(&'a Expr)) {
     f(e);
-    let mut elems = |items: &'a [ArrayElem], f: &mut dyn FnMut(&'a Expr)| {
+    let elems = |items: &'a [ArrayElem], f: &mut dyn FnMut(&'a Expr)| {
         for a in items {
             match a {
                 ArrayElem::Item(e) | ArrayElem::Spread(e) => walk_expr(e, f),
